@@ -658,6 +658,33 @@ def generate(repo=None):
         return emit('mulNeedsPyInt', OPX + ' ' + OPY + ' (F : Int)', pe, pe.env['python_int'], '`python_int` of `functions.mul._mul_raw`')
     attempt('mulNeedsPyInt', fmul)
 
+    # the exact route of add/sub/mul when fraction bits are dropped (`if <test>: return _scale_down_exact(...)` at the head of
+    # `_add_raw` / `_sub_raw` / `_mul_raw`): the test decides whether the result is scaled down as an exact rational or by a float
+    for fn in ('add', 'sub', 'mul'):
+        def fexact(fn=fn):
+            node = find_func(tree, fn)
+            inner = next((n for n in node.body if isinstance(n, ast.FunctionDef) and n.name == '_%s_raw' % fn), None)
+            if inner is None:
+                raise Untranslatable('_%s_raw not found' % fn)
+            a = [p.arg for p in inner.args.args]
+            pe = PE({a[0]: ('O', 'x'), a[1]: ('O', 'y'), a[2]: ('I', 'F')}, consts, funcs)
+            head = []
+            test = None
+            for st in inner.body:
+                if isinstance(st, ast.Assign):
+                    head.append(st)
+                    continue
+                if isinstance(st, ast.If) and any(isinstance(c, ast.Return) and isinstance(c.value, ast.Call) and
+                                                  getattr(c.value.func, 'id', None) == '_scale_down_exact' for c in st.body):
+                    test = st.test
+                break
+            if test is None:
+                raise Untranslatable('no exact scale-down route at the head of _%s_raw' % fn)
+            pe.run(head, lenient=True)
+            return emit('%sExactPath' % fn, OPX + ' ' + OPY + ' (F : Int)', pe, pe.ev(test),
+                        'the test of the exact scale-down route of `functions.%s._%s_raw(x, y, n_frac)`' % (fn, fn))
+        attempt(fn + 'ExactPath', fexact)
+
     # sizing policies of _get_sizing for two operands
     for pol in ('same', 'largest', 'smallest', 'optimal'):
         def f(pol=pol):
